@@ -105,6 +105,10 @@ class FileUploader(service.MultiService, Referenceable):
         # allow-subdirectories, we should pass a list of dirnames and handle
         # it specially.
         targetfile = self.targetdir.child(name)
+        if targetfile.parent() != self.targetdir:
+            # "" and "." name the target directory itself: its ".partial"
+            # sibling would be created outside of the target directory
+            raise BadFilenameError("%r is not a valid filename" % (name,))
 
         #tmpfile = targetfile.temporarySibling()
         #
